@@ -31,7 +31,7 @@ Print Assumptions C02_projection_amplitudes.
 
 (* ---------------- real-number level ---------------- *)
 From Coq Require Import Reals Lra.
-From QI Require Import Proofs.C12b Proofs.C02b Run.RInst.
+From QI Require Import Model.OpSeq Proofs.C12b Proofs.C02b Proofs.C02d Proofs.C02c Run.RInst.
 
 (* the inverse-CDF loop with break: for probabilities p_i >= 0 summing to 1 and a draw 0 <= r < 1, the sampled outcome
    is k exactly when r lies in [p_0+..+p_{k-1}, p_0+..+p_k): an interval of length p_k; the last-bin fallback is unreachable *)
@@ -66,6 +66,42 @@ Theorem C02_measure_born_and_collapse :
           mkState n (map (fun a => cdivr rops a (sqrt (norm2_vec rops (project rops (vec st) aq (N.of_nat k))))) (project rops (vec st) aq (N.of_nat k)))).
 Proof. exact measure_comp_real. Qed.
 Print Assumptions C02_measure_born_and_collapse.
+
+(* The same in ANY basis. measure treats the X, Y and custom bases as: basis change pre_of b, computational measurement,
+   change back post_of b (X: H / H; Y: Sdag,H / H,S; custom U: U / U^dagger, each on every measured qubit). For every
+   non-zero state, qubit list and draw: the outcome k is the one whose Born interval - weights ||P_k U psi||^2 / ||psi||^2,
+   U psi being the rotated state of the same norm - contains the draw, it has positive probability, and the new state is
+   U' (P_k U psi) / ||P_k U psi||, of norm 1. basis_ok: a custom matrix is accepted and exactly unitary
+   (U^dagger U = I = U U^dagger); nothing is assumed for the computational, X and Y bases. *)
+Theorem C02_measure_in_any_basis :
+  forall (of_N : N -> R) (eps tol : R), (forall n, (0 <= of_N n)%R) -> (0 <= eps)%R ->
+  forall par n (b : basis (T:=R)) (st : state (T:=R)) qs r,
+  basis_ok tol b -> wf n st -> measure_args n (actual_qubits n qs) = None -> norm2_vec rops (vec st) <> 0%R -> (0 <= r < 1)%R ->
+  let aq := actual_qubits n qs in
+  exists (v1 : list (Scalar.C (T:=R))) (k : nat) (v2 : list (Scalar.C (T:=R))),
+    run_ops rops par (pre_of b aq) st = Ok (mkState n v1) /\ norm2_vec rops v1 = norm2_vec rops (vec st) /\
+    let weight j := (norm2_vec rops (project rops v1 aq j) / norm2_vec rops (vec st))%R in
+    let ws := map weight (Nrange (2 ^ len aq)) in
+    (k < length ws)%nat /\ (rsum (firstn k ws) <= r < rsum (firstn (S k) ws))%R /\ (0 < weight (N.of_nat k))%R /\
+    run_ops rops par (post_of b aq) (mkState n (project rops v1 aq (N.of_nat k))) = Ok (mkState n v2) /\
+    let c := sqrt (norm2_vec rops (project rops v1 aq (N.of_nat k))) in
+    measure rops of_N eps tol par b st qs r = Ok (outcome_bits (len aq) (N.of_nat k), mkState n (map (fun a => cdivr rops a c) v2)) /\
+    norm2_vec rops (map (fun a => cdivr rops a c) v2) = 1%R.
+Proof. exact measure_basis_born. Qed.
+Print Assumptions C02_measure_in_any_basis.
+
+(* ... and immediately repeating the measurement (distinct qubits) reproduces the outcome with certainty - for EVERY value of the
+   second draw - and leaves the state unchanged: the change back inverts the basis change (gates on distinct qubits commute) and
+   the collapsed state lies in the range of a single projector *)
+Theorem C02_repeated_measurement :
+  forall (of_N : N -> R) (eps tol : R), (forall n, (0 <= of_N n)%R) -> (0 <= eps)%R ->
+  forall par n (b : basis (T:=R)) (st : state (T:=R)) qs r r',
+  basis_ok tol b -> wf n st -> measure_args n (actual_qubits n qs) = None -> NoDup (actual_qubits n qs) -> norm2_vec rops (vec st) <> 0%R ->
+  (0 <= r < 1)%R -> (0 <= r' < 1)%R ->
+  exists bits s2, measure rops of_N eps tol par b st qs r = Ok (bits, s2) /\ wf n s2 /\ norm2_vec rops (vec s2) = 1%R /\
+                  measure rops of_N eps tol par b s2 qs r' = Ok (bits, s2).
+Proof. exact measure_basis_repeatable. Qed.
+Print Assumptions C02_repeated_measurement.
 
 (* measure_n: every shot is measure() of the SAME unmodified input with its own draw (no dependence on scheduling);
    zero shots is the documented error *)
